@@ -590,6 +590,10 @@ func planC17(prop string, seed uint64, tier string, idx int) *Plan {
 	k := &g.p.Knobs
 	k.Store = g.r.str("dir", "dir", "memdir")
 	k.GCFreqMs = -1
+	// (Close collects: nothing in the layout is old enough, so that "the same answers after opening it again" is about the
+	// conversion and not about what a collection does with the fallback indexes it made redundant)
+	k.GCGraceMs = 1000 * 3600 * 1000
+	k.Untagged, k.RefDangling, k.RefWithSubj, k.EmptyRepo = 0, 0, 0, 0
 	k.Torn = g.r.chance(50)
 	if k.Store == "memdir" {
 		g.p.Profile = "fallback-tag layouts (memory over the directory)"
